@@ -16,7 +16,7 @@ LevelsOf(a) == CASE a \in {"gzip", "zlib"} -> 0..9
                  [] OTHER -> {}
 Algos == {"none", "gzip", "zlib", "zstd", "lz4", "brotli_generic", "brotli_text", "brotli_font"}
 HasLevels(a) == a \notin {"none", "lz4"}
-Payloads == {"empty", "one_byte", "incompressible_4k", "repetitive_64k", "text_8k", "under_limit"}
+Payloads == {"empty", "one_byte", "incompressible_4k", "repetitive_64k", "repetitive_512k", "text_8k", "under_limit"}
 SmallPayloads == {"empty", "one_byte", "incompressible_4k", "text_8k"}
 Codecs == {"string", "bytes", "bincode"}
 Batching == {0, 3}
